@@ -37,7 +37,8 @@ for p in PROPS:
             'correspondence check that runs the same generated inputs through the implementation and '
             'through the model under vm_compute.' % p)), design_ref='DESIGN.md section 5 / %s' % p),
         level_note=meta.get('level_note', 'Trusted: Coq kernel + vm_compute; stdlib real-number axioms where '
-                            'Print Assumptions lists them; the Python correspondence harness; '
+                            'Print Assumptions lists them (and the stdlib primitive 63-bit integers under the '
+                            'enclosure theorems about the interval instance); the Python correspondence harness; '
                             'float rounding is outside the model (tolerance compare).'),
         technique=meta.get('technique', 'Coq proof over a Gallina model + differential correspondence (vm_compute)'),
     ))
